@@ -565,6 +565,24 @@ def run_shard(spec, rec):
                 a2 = cand
                 break
         rspec = var.res(call) if callable(var.res) else var.res
+        if rspec is T.REFUSE:
+            # the documentation leaves no unit that fits every slot of the result: any returned value is wrong
+            for a_ in (a1, a2):
+                if a_ is None:
+                    continue
+                args, kwargs = realize(call, a_)
+                oc, got = outcome(lambda: invoke(ent, var, args, kwargs))
+                rec.count("refusal_checks")
+                rec.case(("refuse", cfg, ent.kind, ent.name, label, sig(a_, call)), nontrivial=True)
+                rec.observe("functions_checked", f"{ent.kind}:{ent.name}")
+                rec.observe("variants_checked", f"{ent.kind}:{ent.name}:{label}")
+                if oc == "ok":
+                    rec.violation("result_unit",
+                                  {"function": ent.name, "variant": label, "call": describe(call, a_),
+                                   "problem": "the output slots multiply different numbers of elements, so no single "
+                                              "unit fits the result; a value was returned", "got": short(got)},
+                                  function=ent.name, kind=ent.kind, variant=label, clause="unit")
+            return
         tol = var.tol
         has_bare = any(s in (T.BARE,) for s in
                        (rspec.items if isinstance(rspec, T.Seq) else [rspec]))
